@@ -27,12 +27,12 @@ type node struct {
 	// (`goverter:map Calc<ID> Calc<ID> | MapCalc<ID>`): two fallible calls for one field.
 	MethodSrcFunc bool
 	Ctor          bool
-	Kind   string // basic | nbasic | struct | ptr | slice | map | ustruct | ref | leaf
-	Basic  string
-	ID     int // named things: struct / nbasic / leaf id; ref: id of the struct referred to
-	Key    *node
-	Elem   *node
-	Fields []*field
+	Kind          string // basic | nbasic | struct | ptr | slice | map | ustruct | ref | leaf
+	Basic         string
+	ID            int // named things: struct / nbasic / leaf id; ref: id of the struct referred to
+	Key           *node
+	Elem          *node
+	Fields        []*field
 }
 
 type field struct {
@@ -43,17 +43,22 @@ type field struct {
 	// Optional: a shape goverter may not support on the tree under test (arrays as targets);
 	// if goverter refuses the world it is rebuilt without the optional fields.
 	Optional bool
-	Name    string // source field name
-	TName   string // target field name (C07 renames)
-	N       *node
+	Name     string // source field name
+	TName    string // target field name (C07 renames)
+	N        *node
 	// Embed: the field is an embedded struct (or pointer to struct); its name is the type name
 	// on each side (S<id> / T<id>), mapped with goverter:map.
-	Embed   bool
+	Embed bool
+	// SOnly: the field exists on the source side only (kind "sonly": a nested struct whose
+	// fields goverter:autoMap lifts into the enclosing target). AutoFrom marks the target-only
+	// fields that are filled from it (no goverter:map line).
+	SOnly    bool
+	AutoFrom string
 	// CaseOnly: source and target names differ in case only; matched by goverter:matchIgnoreCase
 	// (no goverter:map line).
 	CaseOnly bool
-	PtrOnT  bool   // source T, target *T
-	MapFunc string // C07: goverter:map F | Func on the enclosing struct's method
+	PtrOnT   bool   // source T, target *T
+	MapFunc  string // C07: goverter:map F | Func on the enclosing struct's method
 }
 
 type leafInfo struct {
@@ -63,24 +68,24 @@ type leafInfo struct {
 }
 
 type Spec struct {
-	Seed      uint64
-	Prop      string // C04 | C07
-	Roots     []*node
-	Structs   map[int]*node // named structs by id
-	NBasics   map[int]string
-	Leaves    map[int]*leafInfo
-	Format    string // struct | function | variables
-	SkipCopy  bool
-	Wrap      string // none | wrapErrors | wrapErrorsUsing
-	KeyLeaf   bool
+	Seed     uint64
+	Prop     string // C04 | C07
+	Roots    []*node
+	Structs  map[int]*node // named structs by id
+	NBasics  map[int]string
+	Leaves   map[int]*leafInfo
+	Format   string // struct | function | variables
+	SkipCopy bool
+	Wrap     string // none | wrapErrors | wrapErrorsUsing
+	KeyLeaf  bool
 	// swarm-style per-world knobs
-	W          [12]int // weights: leaf, basic, nbasic, struct, ptr, slice, map, ustruct, ref, enum, tptr, sptr
+	W [12]int // weights: leaf, basic, nbasic, struct, ptr, slice, map, ustruct, ref, enum, tptr, sptr
 	// Aliases: container/pointer field types that are spelled alike on both sides are declared
 	// through type aliases (type AL3 = map[string]string), and goverter runs with
 	// GODEBUG=gotypesalias=1 (what `go run github.com/jmattheis/goverter/cmd/goverter` from a
 	// go >= 1.23 module gives): go/types then hands out *types.Alias nodes.
-	Aliases bool
-	aliasOf map[string]string
+	Aliases    bool
+	aliasOf    map[string]string
 	aliasOrder []string
 	// MatchIgnoreCase: goverter:matchIgnoreCase on the converter (C07 worlds); some fields are
 	// then spelled differently on the two sides.
@@ -88,14 +93,14 @@ type Spec struct {
 	// UseUnderlying: goverter:useUnderlyingTypeMethods on the converter (C04 worlds; there is
 	// no method it could select, so the generated conversions must stay deep copies).
 	UseUnderlying bool
-	UseZero    bool    // goverter:useZeroValueOnPointerInconsistency (enables *T -> T positions)
-	UpdRoot    map[int]bool // roots that also get an update-signature method
-	UPlainPct  int     // chance that an unnamed struct has only basic fields (identical on both sides)
+	UseZero       bool         // goverter:useZeroValueOnPointerInconsistency (enables *T -> T positions)
+	UpdRoot       map[int]bool // roots that also get an update-signature method
+	UPlainPct     int          // chance that an unnamed struct has only basic fields (identical on both sides)
 	IgnoreMissing bool
 	AutoMethodSrc bool
-	Enums      map[int]int // enum id → member count
-	ULeafPct   int    // C07: chance that a field of an unnamed struct is a fallible leaf
-	UFieldsMax int
+	Enums         map[int]int // enum id → member count
+	ULeafPct      int         // C07: chance that a field of an unnamed struct is a fallible leaf
+	UFieldsMax    int
 	// SkipCopyMode (C04): none | converter | methods (method-level setting on a subset)
 	SkipCopyMode string
 	MethodSkip   map[string]bool
@@ -107,11 +112,11 @@ type Spec struct {
 	NConts        map[int]*node // named container on ONE side, its unnamed form on the other
 	Unexported    bool          // some shared struct carries unexported fields → goverter:ignoreUnexported
 	HasOptional   bool
-	PtrRoot   map[int]bool
-	nextID    int
-	rng       *rand.Rand
-	maxDepth  int
-	structsAt []int
+	PtrRoot       map[int]bool
+	nextID        int
+	rng           *rand.Rand
+	maxDepth      int
+	structsAt     []int
 }
 
 var basics = []string{"int", "int64", "string", "bool", "float64", "uint8", "int32"}
@@ -395,6 +400,29 @@ func (s *Spec) genStruct(depth int) *node {
 		// unsafe.Pointer: a basic type for go/types whose value is a pointer
 		n.Fields = append(n.Fields, &field{Name: fmt.Sprintf("F%d", len(n.Fields)), TName: fmt.Sprintf("F%d", len(n.Fields)), N: &node{Kind: "basic", Basic: "unsafe.Pointer"}})
 	}
+	if s.Prop == "C07" && s.rng.IntN(4) == 0 {
+		// goverter:autoMap: target fields that live in a nested struct of the source; the
+		// location of a failure is the TARGET field, without the source nesting. The setting
+		// applies to every struct converted inside the method, so it gets a named struct (and
+		// with it a method) of its own that holds no unnamed structs.
+		am := &node{Kind: "struct", ID: s.id()}
+		s.Structs[am.ID] = am
+		am.Fields = append(am.Fields, &field{Name: "F0", TName: "F0", N: &node{Kind: "basic", Basic: "int"}})
+		sub := &node{Kind: "sonly", ID: s.id()}
+		sub.Fields = append(sub.Fields,
+			&field{Name: fmt.Sprintf("Am%dx", sub.ID), TName: fmt.Sprintf("Am%dx", sub.ID), N: &node{Kind: "basic", Basic: "int"}},
+			&field{Name: fmt.Sprintf("Am%dy", sub.ID), TName: fmt.Sprintf("Am%dy", sub.ID), N: s.leafNoMap()})
+		subName := fmt.Sprintf("Sub%d", sub.ID)
+		am.Fields = append(am.Fields, &field{SOnly: true, Name: subName, TName: subName, N: sub})
+		for _, in := range sub.Fields {
+			am.Fields = append(am.Fields, &field{TOnly: true, AutoFrom: subName, Name: in.Name, TName: in.TName, N: in.N})
+		}
+		var fn *node = am
+		if s.rng.IntN(2) == 0 {
+			fn = &node{Kind: "slice", Elem: am}
+		}
+		n.Fields = append(n.Fields, s.mkField(len(n.Fields), fn, n))
+	}
 	if s.Prop == "C07" && depth < 2 && s.rng.IntN(3) == 0 {
 		// an embedded struct (or *struct) holding a fallible leaf: the embedded field is a
 		// location element like any other field
@@ -663,6 +691,8 @@ func (s *Spec) expr(n *node, side string) string {
 			return fmt.Sprintf("te.TE%d", n.ID)
 		}
 		return fmt.Sprintf("SE%d", n.ID)
+	case "sonly":
+		return fmt.Sprintf("SAuto%d", n.ID)
 	case "ptr":
 		return "*" + s.expr(n.Elem, side)
 	case "shared":
@@ -789,7 +819,7 @@ func (s *Spec) TypesSource() string {
 				fmt.Fprintf(&b, "\tCalc%d int\n", id)
 			}
 			for _, f := range n.Fields {
-				if f.TOnly && side == "S" {
+				if (f.TOnly && side == "S") || (f.SOnly && side == "T") {
 					continue
 				}
 				name := f.Name
@@ -803,6 +833,17 @@ func (s *Spec) TypesSource() string {
 				fmt.Fprintf(&b, "\t%s %s\n", name, s.fieldExpr(f, side))
 			}
 			b.WriteString("}\n")
+		}
+	}
+	for _, id := range sortedIDs(s.Structs) {
+		for _, f := range s.Structs[id].Fields {
+			if f.SOnly && f.N.Kind == "sonly" {
+				fmt.Fprintf(&b, "type SAuto%d struct {\n", f.N.ID)
+				for _, in := range f.N.Fields {
+					fmt.Fprintf(&b, "\t%s %s\n", in.Name, s.expr(in.N, "S"))
+				}
+				b.WriteString("}\n")
+			}
 		}
 	}
 	for _, id := range sortedIDs(s.Structs) {
@@ -895,6 +936,10 @@ func (s *Spec) methods(twin bool) []methodSpec {
 		var doc []string
 		for _, f := range n.Fields {
 			switch {
+			case f.SOnly:
+				doc = append(doc, "goverter:autoMap "+f.Name)
+			case f.TOnly && f.AutoFrom != "":
+				// filled by goverter:autoMap
 			case f.TOnly:
 				doc = append(doc, fmt.Sprintf("goverter:map %s %s", f.MapPath, f.TName))
 			case f.MapFunc != "":
